@@ -330,6 +330,17 @@ def run(ctx: Any, prog: Program) -> None:
                 if isinstance(a_, ast.Assign) and any(dotted(t_) == n.args[1].value.id for t_ in a_.targets) and isinstance(a_.value, ast.Tuple) and len(a_.value.elts) == 4 and a_.lineno < n.lineno:
                     # only the definitions that can reach this call: same enclosing loop body
                     hdr_sites.append((a_, list(a_.value.elts)))
+    # `is_l4d2 = self.game_ver is GameVersion.L4D2`, assigned once: a test of the bare name is that test
+    l4d2_locals = set()
+    _assigned: Dict[str, List[ast.AST]] = {}
+    for a_ in walk_no_nested(sv):
+        if isinstance(a_, ast.Assign):
+            for t_ in a_.targets:
+                if isinstance(t_, ast.Name):
+                    _assigned.setdefault(t_.id, []).append(a_.value)
+    for nm_, vals_ in _assigned.items():
+        if len(vals_) == 1 and isinstance(vals_[0], ast.Compare) and len(vals_[0].ops) == 1 and isinstance(vals_[0].ops[0], ast.Is) and 'L4D2' in U(vals_[0]):
+            l4d2_locals.add(nm_)
     for n, hdr_args in hdr_sites:
         if True:
             roles = [role(a) for a in hdr_args]
@@ -339,7 +350,7 @@ def run(ctx: Any, prog: Program) -> None:
                 cur, p = p, bsp.parents.get(p)
             is_l4d2 = None
             while p is not None and p is not sv:
-                if isinstance(p, ast.If) and 'L4D2' in U(p.test):
+                if isinstance(p, ast.If) and ('L4D2' in U(p.test) or (isinstance(p.test, ast.Name) and p.test.id in l4d2_locals)):
                     is_l4d2 = cur in p.body or any(cur is x for s in p.body for x in ast.walk(s))
                     break
                 cur = p
